@@ -1,6 +1,7 @@
 package main
 
 import (
+	"go/ast"
 	"fmt"
 	"go/constant"
 	"go/types"
@@ -172,7 +173,10 @@ func (e *Env) eval(x *Expr) TV {
 			n.vars[vn] = TV{Sc{Term{name, srt}}, gt}
 			decl = append(decl, fmt.Sprintf("(%s %s)", name, srt))
 		}
+		axPat := e.pattern
+		n.pattern = nil // an axiom's pattern belongs to its outermost quantifier only
 		body := n.evalBool(x.Args[0])
+		n.pattern = axPat
 		if len(x.Args) > 1 {
 			var ps []string
 			for _, pe := range x.Args[1:] {
@@ -387,6 +391,27 @@ func (e *Env) ssaVar(name string) (TV, bool) {
 	}
 	if best != nil {
 		return TV{f.vals[best], best.Type()}, true
+	}
+	// single-assignment locals that are plain SSA values: named by the builder's debug references
+	var dbg ssa.Value
+	for _, b := range f.fn.Blocks {
+		for _, in := range b.Instrs {
+			if d, ok := in.(*ssa.DebugRef); ok && !d.IsAddr && isLocalVar(d) {
+				if id, ok := d.Expr.(*ast.Ident); ok && id.Name == name {
+					if _, have := f.vals[d.X]; have {
+						dbg = d.X
+					} else if _, isConst := d.X.(*ssa.Const); isConst && dbg == nil {
+						dbg = d.X
+					}
+				}
+			}
+		}
+	}
+	if dbg != nil {
+		if c, ok := dbg.(*ssa.Const); ok {
+			return TV{e.x.val(e.st, f, c), c.Type()}, true
+		}
+		return TV{f.vals[dbg], dbg.Type()}, true
 	}
 	return TV{}, false
 }
@@ -677,6 +702,13 @@ func (e *Env) call(x *Expr) TV {
 	switch x.Name {
 	case "len":
 		return scInt(e.lenOf(e.eval(args[0])))
+	case "arrof":
+		// identity of a slice's backing array (a reference)
+		sv, ok := e.eval(args[0]).V.(SliceV)
+		if !ok {
+			sfail("arrof() needs a slice")
+		}
+		return scInt(sv.Arr)
 	case "hasSuffix":
 		return scBool(App(SBool, "str.suffixof", e.term(args[1]), e.term(args[0])))
 	case "hasPrefix":
@@ -738,6 +770,17 @@ func (e *Env) call(x *Expr) TV {
 			sfail("unknown type %s", args[1].Str)
 		}
 		return scBool(Eq(iv.Tag, reg.typeTag(t)))
+	case "implements":
+		// implements(x, "pkg.Iface") — the dynamic type of x implements the interface (what x.(Iface) tests)
+		iv, ok := e.eval(args[0]).V.(IfaceV)
+		if !ok || args[1].Op != "str" {
+			sfail("implements(iface, \"type\")")
+		}
+		t := e.x.eng.typeByName(args[1].Str)
+		if t == nil {
+			sfail("unknown type %s", args[1].Str)
+		}
+		return scBool(implementsTerm(iv.Tag, t))
 	case "unbox":
 		iv, ok := e.eval(args[0]).V.(IfaceV)
 		if !ok || args[1].Op != "str" {
@@ -775,6 +818,15 @@ func (e *Env) call(x *Expr) TV {
 		return scInt(closID(e.x.eng.fnVal(sp.Func(args[0].Str))))
 	case "isnil":
 		return scBool(e.specEq(e.eval(args[0]), TV{Sc{IntLit(0)}, types.Typ[types.UntypedNil]}))
+	case "spawned":
+		// number of go statements executed on this path
+		return TV{Sc{e.st.ghostInt("$spawns")}, types.Typ[types.Int]}
+	case "selected":
+		// the case chosen by the most recent select (-1: none executed / default)
+		if t, ok := e.st.ghost["$selected"]; ok && t.S != "" {
+			return TV{Sc{t}, types.Typ[types.Int]}
+		}
+		return TV{Sc{IntLit(-1)}, types.Typ[types.Int]}
 	case "held":
 		return scBool(BoolLit(e.st.held[e.lockKey(args[0])]))
 	case "locked":
@@ -893,6 +945,22 @@ func (e *Env) ssaVarMaybe(name string) (TV, bool) {
 func (e *Env) phantomLocal(fn *ssa.Function, name string) (TV, bool) {
 	for _, b := range fn.Blocks {
 		for _, in := range b.Instrs {
+			if d, ok := in.(*ssa.DebugRef); ok && !d.IsAddr && isLocalVar(d) {
+				if id, ok := d.Expr.(*ast.Ident); ok && id.Name == name {
+					// a single-assignment local that has no value on this path
+					key := "phantom:" + fn.String() + ":" + name
+					if e.calleeAnch != nil {
+						if an, ok := e.calleeAnch[key]; ok {
+							return TV{an.Rets[0], d.X.Type()}, true
+						}
+					}
+					v := e.st.freshVal(d.X.Type(), "local_"+name)
+					if e.calleeAnch != nil {
+						e.calleeAnch[key] = &Anchor{Rets: []Val{v}}
+					}
+					return TV{v, d.X.Type()}, true
+				}
+			}
 			if a, ok := in.(*ssa.Alloc); ok && a.Comment == name {
 				el := a.Type().Underlying().(*types.Pointer).Elem()
 				key := "phantom:" + fn.String() + ":" + name
@@ -910,4 +978,14 @@ func (e *Env) phantomLocal(fn *ssa.Function, name string) (TV, bool) {
 		}
 	}
 	return TV{}, false
+}
+
+// isLocalVar: the debug reference names a variable declared inside a function (not a package-level
+// variable, constant, function or field).
+func isLocalVar(d *ssa.DebugRef) bool {
+	v, ok := d.Object().(*types.Var)
+	if !ok || v.IsField() || v.Pkg() == nil {
+		return false
+	}
+	return v.Parent() != v.Pkg().Scope()
 }
